@@ -67,6 +67,44 @@ pub fn eval(c: &FragCase) -> Outcome {
     o
 }
 
+/// Several fragmented muxers alive at once on one thread, fed alternately (C17's pool generator): every one of them must
+/// conserve its own samples.
+fn eval_pool(c: &crate::props::c17::FragPool) -> Outcome {
+    let mut o = Outcome::default();
+    if c.pool.is_empty() {
+        return o;
+    }
+    let lowered: Vec<LoweredFrag> = c.pool.iter().map(lower).collect();
+    let mut runs: Vec<(&FCfg, &[FOp])> = lowered.iter().map(|l| (&l.cfg, &l.ops[..])).collect();
+    runs.push((&lowered[0].cfg, &lowered[0].ops[..]));
+    let got = run_frag_lockstep(&runs, &c.schedule);
+    let mut segs = 0;
+    for (i, run) in got.into_iter().enumerate() {
+        let l = &lowered[if i < lowered.len() { i } else { 0 }];
+        if let Some(p) = &run.panic {
+            o.aborted_by_panic = Some(p.clone());
+            // alone the history does not panic (checked by the main sub-check): losing the samples to a panic is a loss
+            let alone = run_frag(&l.cfg, &l.ops);
+            if alone.panic.is_none() {
+                o.fail("conserve", "conserve.panic_with_other_muxers_alive", format!("muxer {} of {} panics when the muxers are fed alternately, not alone: {}", i, runs.len(), p));
+            }
+            return o;
+        }
+        let mut oi = Outcome::default();
+        let t = check_run(&mut oi, l, true, run);
+        segs += t.emitted.len();
+        for mut v in oi.violations {
+            v.sig = format!("{}:several_muxers", v.sig);
+            o.violations.push(v);
+        }
+        if !o.violations.is_empty() {
+            return o;
+        }
+    }
+    o.nontrivial = c.pool.len() >= 2 && c.schedule.len() >= 4 && segs >= 2;
+    o
+}
+
 fn strat(t: Tier) -> proptest::strategy::BoxedStrategy<FragCase> {
     match t {
         Tier::Quick => frag_case_strategy(40).boxed(),
@@ -98,6 +136,7 @@ pub fn def() -> PropertyDef {
         assumptions: &["DTS below 2^41 and gaps below 2^31 ticks (field-width boundaries belong to C16, panics to C12)"],
         subs: vec![
             Box::new(PSub { name: "queue_model", quick: 40000, thorough: 1200000, strat, eval } ),
+            Box::new(PSub { name: "several_muxers", quick: 3000, thorough: 100000, strat: crate::props::c17::frag_pool_strategy, eval: eval_pool }),
             Box::new(ESub { name: "long_sequences", run: run_long_frag, replay: replay_long_frag }),
         ],
     }
